@@ -7,9 +7,9 @@ def run(tier, seed):
     res = PropertyResult('C08', 'other', 'see coverage.explanation parts')
     targets = []
     try:
-        from contracts import heap_c, alloc_c
+        from contracts import heap_c, alloc_c, graph_c
         from pyvc.verify import verify
-        res.report = verify(heap_c.targets() + alloc_c.targets(), timeout_s=30 if tier == 'quick' else 120)
+        res.report = verify(heap_c.targets() + alloc_c.targets() + graph_c.targets_stems(), timeout_s=30 if tier == 'quick' else 120)
     except ImportError:
         res.report = None
     res.explanation = ('Tier P (unbounded, all alloc/free histories): sim.Heap.alloc and Heap.free are executed symbolically from their current source text on a '
@@ -27,7 +27,9 @@ def run(tier, seed):
     res.bounded = [heap_drv.part(tier), simops_drv.part(tier, seed, which=('map',))]
     res.assumptions = ['bisect.bisect / bisect.insort_left by their defining axioms on sorted sequences (assumed library contracts); dict/list as finite map / sequence',
                        'integers mathematical (int32 overflow of locations not modelled)',
-                       'translation phase of SimOps.__init__ (ops, stems) is bounded only: its guarantees (TopoOps, single production, sources pre-allocated, stems point to real stems) are the '
+                       'stems table: the per-fork block (walk back through driving forks with a connected input, then one entry per connected output) is under contract on the object-heap '
+                       'model of C09 with ghost ROOT / DEPTH (acyclic fork chains assumed): every branch maps to the index of the first upstream line not driven by a fork with input; the '
+                       'loop over all forks and the rest of the translation are bounded: its guarantees (TopoOps, single production, sources pre-allocated, stems point to real stems) are the '
                        'requires of the allocation-phase contract, evaluated on real SimOps instances (REQ:* clauses)',
                        'Heap is used by contract at the call sites of the allocation phase (AbsInv = the live-chunk part of HeapInv)',
                        'CNT monotone in k: induction lemma proved as base+step obligations; the quantified statement is then assumed',
